@@ -55,3 +55,9 @@ package dns
 //@ func (*DNSKEY).PrivateKeyString [C17]
 //@   opt no-safety
 //@   assert at "private := toBase64(intToBytes(p.D, intlen))" width: (r.Algorithm == 13 ==> intlen == 32) && (r.Algorithm == 14 ==> intlen == 48)
+
+// a private type that is unregistered leaves no trace in the tables: its constructor, its mnemonic (types without a
+// mnemonic print as TYPEnnn, which is what reads back) and the reverse mapping all go
+//@ func PrivateHandleRemove [C05 C01]
+//@   opt no-safety
+//@   exit gone: ok ==> !maphas(TypeToString, rtype) && !maphas(TypeToRR, rtype)
